@@ -195,7 +195,10 @@ def wl_bloom(ctx, rng, case):
     sc = bl.Scratch(ctx, case)
     f = fresh = None
     try:
-        f0, d = bl.reachable_bloom(P, rng, est, rate, hf, keys, counting=counting, amounts=(1, 2, 9))
+        seed_b = rng.getrandbits(32)
+        f0, d = bl.reachable_bloom(P, _stdrandom.Random(seed_b), est, rate, hf, keys, counting=counting, amounts=(1, 2, 9))
+        # (in memory) a TWIN with the same history that nobody reads until the very end
+        twin = None if on_disk else bl.reachable_bloom(P, _stdrandom.Random(seed_b), est, rate, hf, keys, counting=counting, amounts=(1, 2, 9))[0]
         case.op("state", d)
         path = None
         if on_disk:
@@ -213,8 +216,13 @@ def wl_bloom(ctx, rng, case):
             r, kk = rng.random(), rng.choice(keys)
             try:
                 if r < 0.45:
-                    f.add(kk, rng.randint(1, 3)) if counting else f.add(kk)
+                    n_t = rng.randint(1, 3)
+                    f.add(kk, n_t) if counting else f.add(kk)
+                    if twin is not None:
+                        twin.add(kk, n_t) if counting else twin.add(kk)
                     tail.append("add")
+                elif twin is not None:
+                    continue  # (histories with a twin keep to calls that either happen completely or not at all)
                 elif r < 0.8:
                     f.add_alt(f.hashes(kk)[: rng.randint(0, max(0, f.number_hashes - 1))])
                     tail.append("add_alt(short) accepted")
@@ -239,6 +247,13 @@ def wl_bloom(ctx, rng, case):
         same(ctx, other_before, state_bloom(other), "the other operand of a set operation")
         ctx.count("read_batches")
         ctx.count("read_only_calls", len(done))
+        if twin is not None and f.elements_added >= 0:
+            # the filter that was read and its unread twin receive the same further additions and must end up in the same observable state
+            for kk in rng.sample(keys, min(len(keys), 6)) + ["new-after-the-reads"]:
+                (f.add(kk, 2), twin.add(kk, 2)) if counting else (f.add(kk), twin.add(kk))
+            same(ctx, state_bloom(twin), state_bloom(f), f"{case.desc['cls']} that received read-only calls {sorted(set(done))} vs its unread twin, after the same further additions")
+            ctx.count("twin_comparisons")
+            before = state_bloom(f, path)
         # ---- the filter as both operands: the result is another object that owns its storage
         for name in ("union", "intersection"):
             r = getattr(f, name)(f)
@@ -447,6 +462,7 @@ def wl_sketch(ctx, rng, case):
 
         f = build(_stdrandom.Random(seed_b), case.op)
         twin = build(_stdrandom.Random(seed_b), lambda *a: None)  # never read, never exported until the very end
+        third = build(_stdrandom.Random(seed_b), lambda *a: None)  # the same state once more, kept for the clear() comparison below
         before = state_sketch(f)
         g = P.CountMinSketch(width=w, depth=d, **bl.kw_hash(hf))
         g.add(keys[0], 2)
@@ -504,7 +520,10 @@ def wl_sketch(ctx, rng, case):
             ctx.check(r1 == r2, f"a {cls_name} that was read and its unread twin return different values for the same later call", r1=r1, r2=r2, step=step)
         same(ctx, state_sketch(twin), state_sketch(f), f"{cls_name} that received read-only calls {sorted(set(done))} vs its unread twin, after the same further updates")
         ctx.count("twin_comparisons")
-        # ---- clear() vs fresh, then the same further history on both
+        # ---- clear() vs fresh, then the same further history on both (cleared: the state as it was built - its total may well be 0 with
+        # counters in use - in half of the cases, the sketch that was read and updated above in the others)
+        if rng.random() < 0.5:
+            f = third
         f.clear()
         fresh = mk()
         same(ctx, state_sketch(fresh), state_sketch(f), f"{cls_name} after clear() vs a freshly constructed one")
@@ -632,7 +651,8 @@ def wl_quotient(ctx, rng, case):
     done = []
     for _ in range(rng.randint(5, 14)):
         h = rng.choice(U)
-        c = rng.choice(["check_alt", "check", "in", "get_hashes", "hashes", "print", "validate", "props", "merge_source", "hashes_partial", "merge_source_refused"])
+        c = rng.choice(["check_alt", "check", "in", "get_hashes", "hashes", "print", "validate", "props", "merge_source", "hashes_partial", "merge_source_refused",
+                        "merge_source_into_a_small_growing_filter"])
         done.append(c)
         if c == "check_alt":
             f.check_alt(h)
@@ -664,6 +684,12 @@ def wl_quotient(ctx, rng, case):
                 small.merge(f)
             except QuotientFilterError:
                 ctx.count("refused_merges_with_this_filter_as_source")
+        elif c == "merge_source_into_a_small_growing_filter":
+            # this filter as the source of a merge into a SMALLER filter that may grow and holds a few hashes of its own
+            small = P.QuotientFilter(quotient=3, auto_expand=True)
+            for x in rng.sample(U, rng.randint(1, 3)):
+                small.add_alt(x ^ 0x3C3C)
+            small.merge(f)
         elif c == "print":
             f.print(file=io.StringIO())
         elif c == "validate":
